@@ -128,6 +128,19 @@ def gen_histories(rng, tier):
     for _ in range(600 if tier == "quick" else 6000):
         seq = [rng.choice(ALPHABET) for _ in range(rng.randint(3, 7))]
         hist.append(seq + [("compute", "")])
+    # configure, compute, change ONE input, compute again on the same object (anything remembered from the first
+    # evaluation must not survive the change), for every shape and with and without a rotation / a precipitate stiffness
+    for shape in ("ellipsoid", "sphere", "cube"):
+        for pre in ([("setC", "C1")], [("setRot", "R1"), ("setC", "C1")], [("setC", "C1"), ("setP", "C2")], [("setC", "C2"), ("setRotP", "R2"), ("setP", "C1")]):
+            base = [("setShape", shape)] + pre + [("setEig", "e1"), ("compute", "")]
+            for op in ALPHABET:
+                if op[0] == "compute":
+                    continue
+                hist.append(base + [op, ("compute", "")])
+                if tier != "quick":
+                    for op2 in ALPHABET:
+                        if op2[0] != "compute":
+                            hist.append(base + [op, ("compute", ""), op2, ("compute", "")])
     return hist
 
 
